@@ -293,7 +293,7 @@ def status_of(rc):
 
 
 # ---------------------------------------------------------------------------------------------
-FAIL_RE = re.compile(r'^<<"MONITOR-FAIL", "([^"]*)", "([^"]*)", (\d+), "([^"]*)">>')
+FAIL_RE = re.compile(r'^<<"MONITOR-FAIL", "([^"]*)", "([^"]*)", (\d+), "([^"]*)"(?:, "([^"]*)")?>>')
 STRICT_RE = re.compile(r'^<<"STRICT-FAIL", "([^"]*)", (\d+), "([^"]*)">>')
 
 
@@ -316,7 +316,8 @@ def validate(spec, trace, trace2=None):
     for line in r.stdout.splitlines():
         m = FAIL_RE.match(line)
         if m:
-            fails.append(dict(props=m.group(1).split(","), monitor=m.group(2), line=int(m.group(3)), op=m.group(4)))
+            fails.append(dict(props=m.group(1).split(","), monitor=m.group(2), line=int(m.group(3)), op=m.group(4),
+                              ctx=(m.group(5) or "").split()))
         m = STRICT_RE.match(line)
         if m:
             strict.append(dict(what=m.group(1), line=int(m.group(2)), op=m.group(3)))
@@ -409,6 +410,23 @@ def cut_replay(trace, line, dest):
         for x in lines[start:line]:
             f.write(x + "\n")
     return dest
+
+
+# monitor families that express "the map is a consistent map" (as opposed to cost / progress / capacity)
+SEMANTIC = {"C01", "C05", "C06", "C08", "C09", "C12", "C13", "C14"}
+
+
+def counts_for(pid, plan, f, baseline_broken):
+    """Does the failed monitor f decide property pid?"""
+    if pid in f["props"] or f["monitor"] in plan.get("monitors", []):
+        return True
+    ctx = f.get("ctx", [])
+    sem = bool(set(f["props"]) & SEMANTIC)
+    if plan.get("after_fault") and sem and "postfault" in ctx and "baseline" not in ctx and not baseline_broken:
+        return True     # C07: "... and later operations behave normally"
+    if plan.get("on_clones") and sem and "cloned" in ctx:
+        return True     # C11: the product of clone/clone_from is a fully fledged, independent map
+    return False
 
 
 def load_known():
@@ -508,6 +526,10 @@ def run_check(pid, tier, seed, replay):
                     jobs.append((t, "TraceDiff", ex.submit(validate, "TraceDiff", t["path"], t["pair"])))
         results = [(t, sp, f.result()) for t, sp, f in jobs]
     known = load_known()
+    # is the code misbehaving even in the fault-free control segments? then failures after an injected
+    # panic cannot be blamed on the panic
+    baseline_broken = any("baseline" in f.get("ctx", []) and set(f["props"]) & SEMANTIC
+                          for t, sp, r in results if sp == "TraceRef" and not r["tool_error"] for f in r["fails"])
     nvalid = 0
     drift = []
     tool_err = []
@@ -524,7 +546,7 @@ def run_check(pid, tier, seed, replay):
         if sp in ("TraceRef", "TraceDiff"):
             nvalid += 1
             for f in r["fails"]:
-                if pid in f["props"] or f["monitor"] in plan.get("monitors", []) or plan.get("any_monitor"):
+                if counts_for(pid, plan, f, baseline_broken):
                     hit = [k for k in known if known_match(k, pid, f, t["elem"])]
                     if hit:
                         known_hits.append((hit[0], f, t))
